@@ -1,4 +1,72 @@
-(** * Properties of [segment_intersection.rs] ([Intersect.v]).  HEADER TO BE COMPLETED *)
+(** * Properties of [segment_intersection.rs] ([Intersect.v]): bounding box, clamp, and
+    exactness of [intersection_impl] / [intersection] on the exact instance [NQ].
+
+    Everything below is PROVED: no axioms, no [Admitted]; [Print Assumptions] of the 27 main
+    theorems (end of file) reports "Closed under the global context".
+
+    DEFINITIONS USED IN THE STATEMENTS
+    - Part 1 (any [N : Num] with [L : NumLaws N]):
+        [okpt L p := okX L (px p) /\ okY L (py p)]
+        [betweenX N u v w := leX N u w && leX N w v = true \/ leX N v w && leX N w u = true]
+        ([betweenY] alike), [in_seg_box a1 a2 q := betweenX (px a1) (px a2) (px q) /\ betweenY ...],
+        [in_bbox bb q := bmin bb <= q <= bmax bb] componentwise.
+    - Part 2 ([NQ], finite inputs [fpt x y := mkPt NQ (QF x) (QF y)], eight rationals
+      [a1x a1y a2x a2y b1x b1y b2x b2y]):
+        [det  := (a2x-a1x)*(b2y-b1y) - (a2y-a1y)*(b2x-b1x)]         (va x vb)
+        [numT := (b1x-a1x)*(a2y-a1y) - (b1y-a1y)*(a2x-a1x)]         (e x va, e = b1 - a1)
+        [common s t := a1 + s va = b1 + t vb]  (both coordinates, up to [==])
+        [on_both x y := exists s t, 0<=s<=1 /\ 0<=t<=1 /\ (x,y) = a1 + s va /\ (x,y) = b1 + t vb]
+        [disjoint_segments := forall s t, 0<=s<=1 -> 0<=t<=1 -> ~ common s t]
+        [seg_a_at s x y := (x,y) = a1 + s va].
+
+    (P1) [clamp_in_box]: for a box with ok corners and [bmin <= bmax], the clamp of a point
+         with ok coordinates lies in the box (x and y).  Also [clamp_ok].
+    (P2) [bbox_is_common_box]: if [get_intersection_bounding_box a1 a2 b1 b2 = Some bb] (8 ok
+         coordinates) then the corners of [bb] are ok, [bmin <= bmax] componentwise, and every
+         ok abscissa (ordinate) of the x-range (y-range) of [bb] lies between the end abscissae
+         (ordinates) of segment a and of segment b.  NOTE: the probe coordinate needs [okX L x]
+         ([okY L y]): [NumLaws] has no law about comparisons with non-ok values, and
+         transitivity is only available on ok values.  Point form: [bbox_point_in_both_boxes].
+    (P1+P2) [intersection_point_in_both_boxes], [intersection_overlap_in_both_boxes]: the
+         points returned by [intersection] are ok and lie in the bounding boxes of both
+         segments, provided the unclamped points of [intersection_impl] are ok (hypothesis, as
+         specified).  At [NQ] the hypothesis is discharged for all finite inputs:
+         [intersection_point_in_both_boxes_NQ], [intersection_overlap_in_both_boxes_NQ]
+         (through [impl_finite_all]: every point returned by [intersection_impl NQ] on finite
+         inputs is finite).
+    (converse, generic) [clamp_identity_generic]: an ok point that lies in the boxes of both
+         segments makes [get_intersection_bounding_box] succeed and is not moved by the clamp.
+    (P3) crossing branch at [NQ], [~ det == 0]:
+         [gt0_sq_iff]: [gt0A2 NQ (k*k) = true <-> ~ k == 0];
+         (a) [impl_crossing_exact] : [intersection_impl = LPoint (x,y) -> on_both x y], with
+             [on_both_unique] (the common point is unique up to [==]);
+         (b) [impl_none_disjoint_crossing_case] : [intersection_impl = LNone -> disjoint_segments];
+         (c) [impl_finite] : the result is [LNone] or [LPoint] of a finite point;
+         [impl_crossing_complete] : (LNone and disjoint) or (LPoint of a common point).
+    (P4) [exact_clamp_identity] (and [exact_clamp_identity_overlap]): a returned point that is
+         on both segments is not moved by the clamp; [intersection_exact],
+         [intersection_exact_point], [intersection_exact_none] (LNone <-> disjoint),
+         [intersection_eq_impl_crossing] ([intersection = intersection_impl] when [~ det == 0]).
+    (P3d) parallel branch, complete:
+         [impl_parallel_distinct] : [det == 0], [~ numT == 0] -> [LNone], and the two LINES have
+             no common point;
+         [impl_collinear] / [intersection_collinear] : [det == 0], [numT == 0], [a1 <> a2]:
+             there are [lo hi] such that the common part of the two closed segments is exactly
+             [{a1 + s va | lo <= s <= hi}], and the result is [LNone] with [hi < lo], or
+             [LPoint (a1 + lo va)] with [lo == hi], or [LOverlap (a1 + lo va) (a1 + hi va)]
+             with [lo <= hi] (and [lo < hi] when [b1 <> b2]).
+         [intersection_exact_all] : for every finite input with [a1 <> a2], [intersection]
+             returns [LNone] only for disjoint segments, and otherwise common points.
+
+    FINDING (why [a1 <> a2] is required in the collinear statements):
+         [impl_degenerate_a_none] : if [a1 = a2] then [intersection_impl] (hence [intersection])
+         returns [LNone] for EVERY [b1 b2], also when the point [a1] lies on segment [b]:
+         the collinear branch computes [sa = 0/0 = NaN] and all comparisons are false.
+         Concrete witness [degenerate_a_witness]: a1 = a2 = (0,0), b1 = (-1,0), b2 = (1,0):
+         the result is [LNone] although (0,0) is a common point.  (A degenerate SECOND
+         segment [b1 = b2] is handled exactly.)
+
+    MISSING: nothing of (P1)-(P4),(d).  Not addressed: non-finite inputs at [NQ]. *)
 From Coq Require Import Bool ZArith QArith Qreduction Lqa Lia.
 From GB Require Import Num NumQ NumLaws NumLawsQ Intersect.
 Set Implicit Arguments.
@@ -378,6 +446,12 @@ Proof.
   exfalso. apply Hk, qsgn_Eq, E.
 Qed.
 
+Lemma qdiv_00 n k : n == 0 -> k == 0 -> qdiv n k = QNaN.
+Proof.
+  intros Hn Hk. unfold qdiv.
+  rewrite (proj2 (qsgn_Eq k) Hk), (proj2 (qsgn_Eq n) Hn). reflexivity.
+Qed.
+
 Lemma sq_pos k : ~ k == 0 -> 0 < k * k.
 Proof.
   intros Hk. destruct (Q_dec k 0) as [[H|H]|H]; [nra | nra | contradiction].
@@ -409,6 +483,80 @@ Proof.
   intros Hs Hx. unfold betweenX. cbn [leX NQ].
   destruct (Qlt_le_dec u v) as [H|H]; [left | right];
     apply andb_true_iff; split; apply qx_le_FF; nra.
+Qed.
+
+(** min and max of [NQ] on finite values *)
+Definition qmin (x y : Q) : Q := match x ?= y with Gt => y | _ => x end.
+Definition qmax (x y : Q) : Q := match x ?= y with Lt => y | _ => x end.
+
+Lemma qx_min_FF x y : qx_min (QF x) (QF y) = QF (qmin x y).
+Proof. unfold qx_min, qmin. rewrite qx_compare_FF. destruct (x ?= y); reflexivity. Qed.
+Lemma qx_max_FF x y : qx_max (QF x) (QF y) = QF (qmax x y).
+Proof. unfold qx_max, qmax. rewrite qx_compare_FF. destruct (x ?= y); reflexivity. Qed.
+Lemma qx_add_FF x y : qx_add (QF x) (QF y) = QF (Qred (x + y)).
+Proof. reflexivity. Qed.
+
+Lemma qmin_spec x y : (x <= y /\ qmin x y = x) \/ (y < x /\ qmin x y = y).
+Proof.
+  unfold qmin. destruct (Qcompare_spec x y) as [H|H|H].
+  - left. split; [lra | reflexivity].
+  - left. split; [lra | reflexivity].
+  - right. split; [lra | reflexivity].
+Qed.
+Lemma qmax_spec x y : (x < y /\ qmax x y = y) \/ (y <= x /\ qmax x y = x).
+Proof.
+  unfold qmax. destruct (Qcompare_spec x y) as [H|H|H].
+  - right. split; [lra | reflexivity].
+  - left. split; [lra | reflexivity].
+  - right. split; [lra | reflexivity].
+Qed.
+
+(** the parameter range [max (min al be) 0 .. min (max al be) 1] *)
+Lemma lohi_range al be s :
+  qmax (qmin al be) 0 <= s <= qmin (qmax al be) 1 <->
+  (0 <= s <= 1 /\ (al <= s <= be \/ be <= s <= al)).
+Proof.
+  destruct (qmin_spec al be) as [[H1 ->]|[H1 ->]];
+  destruct (qmax_spec al be) as [[H2 ->]|[H2 ->]];
+  match goal with |- qmax ?u 0 <= _ <= _ <-> _ => destruct (qmax_spec u 0) as [[H3 ->]|[H3 ->]] end;
+  match goal with |- _ <= _ <= qmin ?u 1 <-> _ => destruct (qmin_spec u 1) as [[H4 ->]|[H4 ->]] end;
+  split; intros H; lra.
+Qed.
+
+Lemma sum_sq_zero u v : u * u + v * v == 0 -> u == 0 /\ v == 0.
+Proof.
+  intros E.
+  assert (Hu : 0 <= u * u) by nra. assert (Hv : 0 <= v * v) by nra.
+  assert (Eu : u * u == 0) by lra. assert (Ev : v * v == 0) by lra.
+  apply Qmult_integral in Eu. apply Qmult_integral in Ev. tauto.
+Qed.
+
+Lemma div_between u d : 0 < d -> 0 <= u <= d -> 0 <= u / d <= 1.
+Proof.
+  intros Hd Hu. split.
+  - apply Qle_shift_div_l; [exact Hd | lra].
+  - apply Qle_shift_div_r; [exact Hd | lra].
+Qed.
+
+(** a vector [e] collinear with [v <> 0] is its projection on [v] *)
+Lemma proj_collinear vx vy ex ey :
+  ~ vx * vx + vy * vy == 0 -> ex * vy - ey * vx == 0 ->
+  ex == (vx * ex + vy * ey) / (vx * vx + vy * vy) * vx /\
+  ey == (vx * ex + vy * ey) / (vx * vx + vy * vy) * vy.
+Proof.
+  intros Hl Hc. split.
+  - apply (Qmult_inj_r _ _ _ Hl).
+    assert (E : ex * (vx * vx + vy * vy) - (vx * ex + vy * ey) * vx == vy * (ex * vy - ey * vx)) by ring.
+    rewrite Hc in E.
+    assert (E2 : (vx * ex + vy * ey) / (vx * vx + vy * vy) * vx * (vx * vx + vy * vy)
+                 == (vx * ex + vy * ey) * vx) by (field; exact Hl).
+    rewrite E2. lra.
+  - apply (Qmult_inj_r _ _ _ Hl).
+    assert (E : ey * (vx * vx + vy * vy) - (vx * ex + vy * ey) * vy == - vx * (ex * vy - ey * vx)) by ring.
+    rewrite Hc in E.
+    assert (E2 : (vx * ex + vy * ey) / (vx * vx + vy * vy) * vy * (vx * vx + vy * vy)
+                 == (vx * ex + vy * ey) * vy) by (field; exact Hl).
+    rewrite E2. lra.
 Qed.
 
 Section Exact.
@@ -530,4 +678,630 @@ Proof.
   split; field; exact Hdet.
 Qed.
 
+(** *** (P3) the crossing branch: [det <> 0] *)
+
+(** the complete case analysis of the crossing branch *)
+Lemma impl_crossing_cases :
+  ~ det == 0 ->
+  ((rs < 0 \/ 1 < rs \/ rt < 0 \/ 1 < rt) /\ intersection_impl A1 A2 B1 B2 = LNone) \/
+  ((0 <= rs <= 1 /\ 0 <= rt <= 1) /\
+   exists x y, intersection_impl A1 A2 B1 B2 = LPoint (fpt x y) /\
+     x == a1x + rs * (a2x - a1x) /\ y == a1y + rs * (a2y - a1y) /\
+     x == b1x + rt * (b2x - b1x) /\ y == b1y + rt * (b2y - b1y)).
+Proof.
+  intros Hdet.
+  assert (Hk : ~ rk == 0) by (rewrite rk_det; exact Hdet).
+  destruct (cramer_common Hdet) as [Cx Cy].
+  rewrite impl_eval. cbv zeta.
+  rewrite (gt0_sq_true Hk). rewrite !(qdiv_nz _ Hk).
+  change (Qred (rns / rk)) with rs. change (Qred (rnt / rk)) with rt.
+  destruct (qx_lt (QF rs) (QF 0)) eqn:E1.
+  { left. apply qx_lt_FF in E1. split; [tauto | reflexivity]. }
+  destruct (qx_lt (QF 1) (QF rs)) eqn:E2.
+  { left. apply qx_lt_FF in E2. split; [tauto | reflexivity]. }
+  cbn [orb].
+  destruct (qx_lt (QF rt) (QF 0)) eqn:E3.
+  { left. apply qx_lt_FF in E3. split; [tauto | reflexivity]. }
+  destruct (qx_lt (QF 1) (QF rt)) eqn:E4.
+  { left. apply qx_lt_FF in E4. split; [tauto | reflexivity]. }
+  cbn [orb].
+  apply qx_lt_FF_false in E1, E2, E3, E4.
+  right. split; [split; split; assumption|].
+  rewrite !mid_point_FF.
+  assert (HA : exists x y,
+             LPoint (fpt (rmid a1x rs rvax) (rmid a1y rs rvay)) = LPoint (fpt x y) /\
+             x == a1x + rs * (a2x - a1x) /\ y == a1y + rs * (a2y - a1y) /\
+             x == b1x + rt * (b2x - b1x) /\ y == b1y + rt * (b2y - b1y)).
+  { eexists; eexists. split; [reflexivity|].
+    rewrite <- Cx, <- Cy. unfold rvax, rvay. rewrite !rmid_eq, !rsub_eq.
+    repeat split; reflexivity. }
+  assert (HB : exists x y,
+             LPoint (fpt (rmid b1x rt rvbx) (rmid b1y rt rvby)) = LPoint (fpt x y) /\
+             x == a1x + rs * (a2x - a1x) /\ y == a1y + rs * (a2y - a1y) /\
+             x == b1x + rt * (b2x - b1x) /\ y == b1y + rt * (b2y - b1y)).
+  { eexists; eexists. split; [reflexivity|].
+    rewrite Cx, Cy. unfold rvbx, rvby. rewrite !rmid_eq, !rsub_eq.
+    repeat split; reflexivity. }
+  destruct (qx_eq (QF rs) (QF 0) || qx_eq (QF rs) (QF 1)); [exact HA|].
+  destruct (qx_eq (QF rt) (QF 0) || qx_eq (QF rt) (QF 1)); [exact HB | exact HA].
+Qed.
+
+(** (P3c) *)
+Theorem impl_finite :
+  ~ det == 0 ->
+  intersection_impl A1 A2 B1 B2 = LNone \/
+  exists x y, intersection_impl A1 A2 B1 B2 = LPoint (fpt x y).
+Proof.
+  intros Hdet. destruct (impl_crossing_cases Hdet) as [[_ H]|[_ (x & y & H & _)]].
+  - left; exact H.
+  - right; exists x, y; exact H.
+Qed.
+
+(** (P3a) *)
+Theorem impl_crossing_exact x y :
+  ~ det == 0 ->
+  intersection_impl A1 A2 B1 B2 = LPoint (mkPt NQ (QF x) (QF y)) ->
+  on_both x y.
+Proof.
+  intros Hdet Hi.
+  destruct (impl_crossing_cases Hdet) as [[_ H]|[[Hs Ht] (x' & y' & H & Hx1 & Hy1 & Hx2 & Hy2)]].
+  - rewrite H in Hi. discriminate.
+  - rewrite H in Hi. injection Hi as <- <-.
+    exists rs, rt. repeat split; try assumption; tauto.
+Qed.
+
+(** a common point is unique when the segments are not parallel *)
+Theorem on_both_unique x y x' y' :
+  ~ det == 0 -> on_both x y -> on_both x' y' -> x == x' /\ y == y'.
+Proof.
+  intros Hdet (s & t & _ & _ & Hx & Hy & Hx2 & Hy2) (s' & t' & _ & _ & Hx' & Hy' & Hx2' & Hy2').
+  assert (C : common s t) by (split; [rewrite <- Hx | rewrite <- Hy]; assumption).
+  assert (C' : common s' t') by (split; [rewrite <- Hx' | rewrite <- Hy']; assumption).
+  destruct (common_params Hdet C) as [Es _]. destruct (common_params Hdet C') as [Es' _].
+  rewrite Hx, Hy, Hx', Hy', Es, Es'. split; reflexivity.
+Qed.
+
+Lemma disjoint_iff_no_common_point : disjoint_segments <-> ~ exists x y, on_both x y.
+Proof.
+  split.
+  - intros Hd (x & y & s & t & Hs & Ht & Hx & Hy & Hx2 & Hy2).
+    apply (Hd s t Hs Ht). split; [rewrite <- Hx | rewrite <- Hy]; assumption.
+  - intros Hn s t Hs Ht [Cx Cy]. apply Hn.
+    exists (a1x + s * (a2x - a1x)), (a1y + s * (a2y - a1y)), s, t.
+    repeat split; try tauto; try reflexivity; assumption.
+Qed.
+
+(** (P3b) *)
+Theorem impl_none_disjoint_crossing_case :
+  ~ det == 0 ->
+  intersection_impl A1 A2 B1 B2 = LNone ->
+  disjoint_segments.
+Proof.
+  intros Hdet Hi s t Hs Ht Hc.
+  destruct (common_params Hdet Hc) as [Es Et].
+  destruct (impl_crossing_cases Hdet) as [[Hout _]|[_ (x' & y' & H & _)]].
+  - rewrite <- Es, <- Et in Hout. lra.
+  - rewrite H in Hi. discriminate.
+Qed.
+
+(** converse of (P3b): the case analysis is complete *)
+Theorem impl_crossing_complete :
+  ~ det == 0 ->
+  (intersection_impl A1 A2 B1 B2 = LNone /\ disjoint_segments) \/
+  (exists x y, intersection_impl A1 A2 B1 B2 = LPoint (fpt x y) /\ on_both x y).
+Proof.
+  intros Hdet. destruct (impl_finite Hdet) as [H|(x & y & H)].
+  - left. split; [exact H|]. exact (impl_none_disjoint_crossing_case Hdet H).
+  - right. exists x, y. split; [exact H|]. exact (impl_crossing_exact Hdet H).
+Qed.
+
+(** *** (P4) the clamp does not move an exact common point *)
+
+Lemma on_both_in_boxes x y :
+  on_both x y -> in_seg_box A1 A2 (fpt x y) /\ in_seg_box B1 B2 (fpt x y).
+Proof.
+  intros (s & t & Hs & Ht & Hx & Hy & Hx2 & Hy2).
+  split; split; cbn [px py fpt].
+  - exact (param_between Hs Hx).
+  - exact (param_between Hs Hy).
+  - exact (param_between Ht Hx2).
+  - exact (param_between Ht Hy2).
+Qed.
+
+Theorem exact_clamp_identity x y :
+  on_both x y ->
+  intersection_impl A1 A2 B1 B2 = LPoint (fpt x y) ->
+  intersection A1 A2 B1 B2 = LPoint (fpt x y).
+Proof.
+  intros Hon Hi. destruct (on_both_in_boxes Hon) as [HA HB].
+  destruct (clamp_identity_generic (L := NQ_laws)
+              (okpt_fpt a1x a1y) (okpt_fpt a2x a2y) (okpt_fpt b1x b1y) (okpt_fpt b2x b2y)
+              (okpt_fpt x y) HA HB) as [bb [Hbb Hc]].
+  unfold intersection. rewrite Hbb, Hi, Hc. reflexivity.
+Qed.
+
+Lemma intersection_none_of_impl :
+  intersection_impl A1 A2 B1 B2 = LNone -> intersection A1 A2 B1 B2 = LNone.
+Proof.
+  intros Hi. unfold intersection. rewrite Hi.
+  destruct (get_intersection_bounding_box A1 A2 B1 B2); reflexivity.
+Qed.
+
+(** at [NQ], for finite non-parallel segments, [intersection] returns the exact common
+    point, or [LNone] exactly when the closed segments are disjoint *)
+Theorem intersection_exact :
+  ~ det == 0 ->
+  (intersection A1 A2 B1 B2 = LNone /\ disjoint_segments) \/
+  (exists x y, intersection A1 A2 B1 B2 = LPoint (fpt x y) /\ on_both x y).
+Proof.
+  intros Hdet. destruct (impl_crossing_complete Hdet) as [[H Hd]|(x & y & H & Hon)].
+  - left. split; [exact (intersection_none_of_impl H) | exact Hd].
+  - right. exists x, y. split; [exact (exact_clamp_identity Hon H) | exact Hon].
+Qed.
+
+Corollary intersection_exact_point x y :
+  ~ det == 0 -> intersection A1 A2 B1 B2 = LPoint (fpt x y) -> on_both x y.
+Proof.
+  intros Hdet Hi. destruct (intersection_exact Hdet) as [[H _]|(x' & y' & H & Hon)].
+  - rewrite H in Hi. discriminate.
+  - rewrite H in Hi. injection Hi as <- <-. exact Hon.
+Qed.
+
+Corollary intersection_exact_none :
+  ~ det == 0 -> (intersection A1 A2 B1 B2 = LNone <-> disjoint_segments).
+Proof.
+  intros Hdet. destruct (intersection_exact Hdet) as [[H Hd]|(x' & y' & H & Hon)].
+  - split; intros _; assumption.
+  - split.
+    + intros Hi. rewrite H in Hi. discriminate.
+    + intros Hd. exfalso. apply (proj1 disjoint_iff_no_common_point Hd).
+      exists x', y'. exact Hon.
+Qed.
+
+Corollary intersection_eq_impl_crossing :
+  ~ det == 0 -> intersection A1 A2 B1 B2 = intersection_impl A1 A2 B1 B2.
+Proof.
+  intros Hdet. destruct (impl_crossing_complete Hdet) as [[H Hd]|(x & y & H & Hon)].
+  - rewrite H. exact (intersection_none_of_impl H).
+  - rewrite H. exact (exact_clamp_identity Hon H).
+Qed.
+
+(** *** (P3d, first half) distinct parallel lines *)
+Theorem impl_parallel_distinct :
+  det == 0 -> ~ numT == 0 ->
+  intersection_impl A1 A2 B1 B2 = LNone /\ (forall s t, ~ common s t).
+Proof.
+  intros Hdet HT. split.
+  - rewrite impl_eval.
+    rewrite (gt0_sq_false (k := rk)) by (rewrite rk_det; exact Hdet).
+    rewrite (gt0_sq_true (k := rnt)) by (rewrite rnt_eq; exact HT).
+    reflexivity.
+  - intros s t Hc. apply HT. rewrite <- (common_det_t Hc), Hdet. ring.
+Qed.
+
+(** *** (P3d, second half) the collinear branch *)
+
+Definition len2 : Q := (a2x - a1x) * (a2x - a1x) + (a2y - a1y) * (a2y - a1y).
+(** the point of the line through [a1 a2] at parameter [s] *)
+Definition seg_a_at (s x y : Q) : Prop :=
+  x == a1x + s * (a2x - a1x) /\ y == a1y + s * (a2y - a1y).
+
+Definition rsa := Qred (rdot rvax rvay rex rey / rlen).
+Definition rsb := Qred (rsa + Qred (rdot rvax rvay rvbx rvby / rlen)).
+Definition rsmin := qmin rsa rsb.
+Definition rsmax := qmax rsa rsb.
+Definition rlo := qmax rsmin 0.
+Definition rhi := qmin rsmax 1.
+
+Lemma rlen_eq : rlen == len2.
+Proof. unfold rlen, rvax, rvay, len2. rewrite rdot_eq, !rsub_eq. ring. Qed.
+
+Lemma len2_nz : ~ (a2x == a1x /\ a2y == a1y) -> ~ len2 == 0.
+Proof.
+  intros H E. apply H. unfold len2 in E. apply sum_sq_zero in E. split; lra.
+Qed.
+
+Lemma rsa_eq :
+  rsa == ((a2x - a1x) * (b1x - a1x) + (a2y - a1y) * (b1y - a1y)) / len2.
+Proof.
+  unfold rsa. rewrite Qred_correct, rlen_eq.
+  unfold rvax, rvay, rex, rey. rewrite rdot_eq, !rsub_eq. reflexivity.
+Qed.
+
+Lemma rsb_eq :
+  rsb == rsa + ((a2x - a1x) * (b2x - b1x) + (a2y - a1y) * (b2y - b1y)) / len2.
+Proof.
+  unfold rsb. rewrite !Qred_correct, rlen_eq.
+  unfold rvax, rvay, rvbx, rvby. rewrite rdot_eq, !rsub_eq. reflexivity.
+Qed.
+
+(** in the collinear case [b1 = a1 + rsa va] and [b2 = a1 + rsb va] *)
+Lemma collinear_b1 :
+  numT == 0 -> ~ len2 == 0 -> seg_a_at rsa b1x b1y.
+Proof.
+  intros HT Hl.
+  destruct (@proj_collinear (a2x - a1x) (a2y - a1y) (b1x - a1x) (b1y - a1y) Hl HT) as [Ex Ey].
+  unfold seg_a_at. rewrite rsa_eq. unfold len2. split; lra.
+Qed.
+
+Lemma collinear_b2 :
+  det == 0 -> numT == 0 -> ~ len2 == 0 -> seg_a_at rsb b2x b2y.
+Proof.
+  intros Hdet HT Hl.
+  destruct (collinear_b1 HT Hl) as [Bx By].
+  assert (Hc : (b2x - b1x) * (a2y - a1y) - (b2y - b1y) * (a2x - a1x) == 0)
+    by (unfold det in Hdet; lra).
+  destruct (@proj_collinear (a2x - a1x) (a2y - a1y) (b2x - b1x) (b2y - b1y) Hl Hc) as [Ex Ey].
+  unfold seg_a_at. rewrite rsb_eq. unfold len2. split; lra.
+Qed.
+
+(** the common part of two collinear segments, in the parametrisation of [a] *)
+Lemma collinear_common al be :
+  ~ len2 == 0 -> seg_a_at al b1x b1y -> seg_a_at be b2x b2y ->
+  forall x y,
+    on_both x y <->
+    exists s, (0 <= s <= 1 /\ (al <= s <= be \/ be <= s <= al)) /\ seg_a_at s x y.
+Proof.
+  intros Hl [B1x' B1y'] [B2x' B2y'] x y. split.
+  - intros (s & t & Hs & Ht & Hx & Hy & Hx2 & Hy2).
+    exists s. split; [|split; assumption]. split; [exact Hs|].
+    assert (Es : s == al + t * (be - al)).
+    { rewrite B1x', B2x' in Hx2. rewrite B1y', B2y' in Hy2.
+      assert (Rx : (s - (al + t * (be - al))) * (a2x - a1x) == 0) by lra.
+      assert (Ry : (s - (al + t * (be - al))) * (a2y - a1y) == 0) by lra.
+      assert (R : (s - (al + t * (be - al))) * len2 == 0).
+      { unfold len2.
+        setoid_replace ((s - (al + t * (be - al))) *
+                        ((a2x - a1x) * (a2x - a1x) + (a2y - a1y) * (a2y - a1y)))
+          with ((s - (al + t * (be - al))) * (a2x - a1x) * (a2x - a1x) +
+                (s - (al + t * (be - al))) * (a2y - a1y) * (a2y - a1y)) by ring.
+        rewrite Rx, Ry. ring. }
+      apply Qmult_integral in R. destruct R as [R|R]; [lra | contradiction]. }
+    destruct (Qlt_le_dec be al) as [H|H]; [right | left]; rewrite Es; nra.
+  - intros (s & (Hs & Hbt) & Hx & Hy).
+    assert (Et : exists t, 0 <= t <= 1 /\ s == al + t * (be - al)).
+    { destruct (Qlt_le_dec al be) as [H|H].
+      - exists ((s - al) / (be - al)). split.
+        + apply div_between; lra.
+        + field. lra.
+      - destruct (Qlt_le_dec be al) as [H'|H'].
+        + exists ((al - s) / (al - be)). split.
+          * apply div_between; lra.
+          * field. lra.
+        + exists 0. split; lra. }
+    destruct Et as (t & Ht & Es).
+    exists s, t. split; [exact Hs|]. split; [exact Ht|].
+    split; [exact Hx|]. split; [exact Hy|].
+    rewrite Hx, Hy, B1x', B2x', B1y', B2y', Es. split; ring.
+Qed.
+
+Lemma impl_eval_collinear :
+  det == 0 -> numT == 0 -> ~ len2 == 0 ->
+  intersection_impl A1 A2 B1 B2 =
+  if qx_le (QF rsmin) (QF 1) && qx_le (QF 0) (QF rsmax) then
+    if qx_eq (QF rsmin) (QF 1) then LPoint (fpt (rmid a1x rsmin rvax) (rmid a1y rsmin rvay))
+    else if qx_eq (QF rsmax) (QF 0) then LPoint (fpt (rmid a1x rsmax rvax) (rmid a1y rsmax rvay))
+    else LOverlap (fpt (rmid a1x rlo rvax) (rmid a1y rlo rvay))
+                  (fpt (rmid a1x rhi rvax) (rmid a1y rhi rvay))
+  else LNone.
+Proof.
+  intros Hdet HT Hl.
+  assert (Hrl : ~ rlen == 0) by (rewrite rlen_eq; exact Hl).
+  rewrite impl_eval.
+  rewrite (gt0_sq_false (k := rk)) by (rewrite rk_det; exact Hdet).
+  rewrite (gt0_sq_false (k := rnt)) by (rewrite rnt_eq; exact HT).
+  cbv zeta. rewrite !(qdiv_nz _ Hrl).
+  change (Qred (rdot rvax rvay rex rey / rlen)) with rsa.
+  rewrite qx_add_FF.
+  change (Qred (rsa + Qred (rdot rvax rvay rvbx rvby / rlen))) with rsb.
+  rewrite qx_min_FF, qx_max_FF.
+  change (qmin rsa rsb) with rsmin. change (qmax rsa rsb) with rsmax.
+  rewrite qx_min_FF, qx_max_FF.
+  change (qmax rsmin 0) with rlo. change (qmin rsmax 1) with rhi.
+  rewrite !mid_point_FF. reflexivity.
+Qed.
+
+Lemma rmid_seg_a_at s s' :
+  s == s' -> seg_a_at s' (rmid a1x s rvax) (rmid a1y s rvay).
+Proof.
+  intros E. unfold seg_a_at, rvax, rvay. rewrite !rmid_eq, !rsub_eq, E. split; reflexivity.
+Qed.
+
+Lemma rsmin_le_rsmax : rsmin <= rsmax.
+Proof.
+  unfold rsmin, rsmax.
+  destruct (qmin_spec rsa rsb) as [[H1 ->]|[H1 ->]];
+  destruct (qmax_spec rsa rsb) as [[H2 ->]|[H2 ->]]; lra.
+Qed.
+Lemma rsmin_lt_rsmax :
+  det == 0 -> numT == 0 -> ~ len2 == 0 -> ~ (b2x == b1x /\ b2y == b1y) -> rsmin < rsmax.
+Proof.
+  intros Hdet HT Hl Hb.
+  destruct (collinear_b1 HT Hl) as [B1x' B1y'].
+  destruct (collinear_b2 Hdet HT Hl) as [B2x' B2y'].
+  assert (Hne : ~ rsa == rsb).
+  { intros E. apply Hb. rewrite B1x', B1y', B2x', B2y', E. split; reflexivity. }
+  unfold rsmin, rsmax.
+  destruct (qmin_spec rsa rsb) as [[H1 ->]|[H1 ->]];
+  destruct (qmax_spec rsa rsb) as [[H2 ->]|[H2 ->]]; lra.
+Qed.
+Lemma rlo_spec : (rsmin < 0 /\ rlo = 0) \/ (0 <= rsmin /\ rlo = rsmin).
+Proof. exact (qmax_spec rsmin 0). Qed.
+Lemma rhi_spec : (rsmax <= 1 /\ rhi = rsmax) \/ (1 < rsmax /\ rhi = 1).
+Proof. exact (qmin_spec rsmax 1). Qed.
+
+(** the collinear branch returns exactly the ends of the common part *)
+Theorem impl_collinear :
+  det == 0 -> numT == 0 -> ~ (a2x == a1x /\ a2y == a1y) ->
+  exists lo hi : Q,
+    (forall x y, on_both x y <-> exists s, lo <= s <= hi /\ seg_a_at s x y) /\
+    ((hi < lo /\ intersection_impl A1 A2 B1 B2 = LNone) \/
+     (lo == hi /\ exists x y,
+        intersection_impl A1 A2 B1 B2 = LPoint (fpt x y) /\ seg_a_at lo x y) \/
+     (lo <= hi /\ (~ (b2x == b1x /\ b2y == b1y) -> lo < hi) /\ exists x y x' y',
+        intersection_impl A1 A2 B1 B2 = LOverlap (fpt x y) (fpt x' y') /\
+        seg_a_at lo x y /\ seg_a_at hi x' y')).
+Proof.
+  intros Hdet HT Hne. assert (Hl := len2_nz Hne).
+  exists rlo, rhi. split.
+  - intros x y.
+    rewrite (collinear_common Hl (collinear_b1 HT Hl) (collinear_b2 Hdet HT Hl) x y).
+    split; intros (s & Hs & Hat); exists s; (split; [|exact Hat]);
+      apply (lohi_range rsa rsb s); exact Hs.
+  - rewrite (impl_eval_collinear Hdet HT Hl).
+    assert (Hmm := rsmin_le_rsmax).
+    destruct (qx_le (QF rsmin) (QF 1)) eqn:T1;
+      [apply qx_le_FF in T1 | apply qx_le_FF_false in T1].
+    + destruct (qx_le (QF 0) (QF rsmax)) eqn:T2;
+        [apply qx_le_FF in T2 | apply qx_le_FF_false in T2]; cbn [andb].
+      * destruct (qx_eq (QF rsmin) (QF 1)) eqn:T3;
+          [apply qx_eq_FF in T3 | apply qx_eq_FF_false in T3].
+        { right; left. split.
+          - destruct rlo_spec as [[L1 L2]|[L1 L2]], rhi_spec as [[U1 U2]|[U1 U2]];
+              rewrite L2, U2; lra.
+          - eexists; eexists. split; [reflexivity|]. apply rmid_seg_a_at.
+            destruct rlo_spec as [[L1 L2]|[L1 L2]]; rewrite L2; lra. }
+        destruct (qx_eq (QF rsmax) (QF 0)) eqn:T4;
+          [apply qx_eq_FF in T4 | apply qx_eq_FF_false in T4].
+        { right; left. split.
+          - destruct rlo_spec as [[L1 L2]|[L1 L2]], rhi_spec as [[U1 U2]|[U1 U2]];
+              rewrite L2, U2; lra.
+          - eexists; eexists. split; [reflexivity|]. apply rmid_seg_a_at.
+            destruct rlo_spec as [[L1 L2]|[L1 L2]]; rewrite L2; lra. }
+        right; right. split.
+        { destruct rlo_spec as [[L1 L2]|[L1 L2]], rhi_spec as [[U1 U2]|[U1 U2]];
+            rewrite L2, U2; lra. }
+        split.
+        { intros Hb. assert (Hlt := rsmin_lt_rsmax Hdet HT Hl Hb).
+          destruct rlo_spec as [[L1 L2]|[L1 L2]], rhi_spec as [[U1 U2]|[U1 U2]];
+            rewrite L2, U2; lra. }
+        do 4 eexists. split; [reflexivity|].
+        split; apply rmid_seg_a_at; reflexivity.
+      * left. split; [|reflexivity].
+        destruct rlo_spec as [[L1 L2]|[L1 L2]], rhi_spec as [[U1 U2]|[U1 U2]];
+          rewrite L2, U2; lra.
+    + cbn [andb]. left. split; [|reflexivity].
+      destruct rlo_spec as [[L1 L2]|[L1 L2]], rhi_spec as [[U1 U2]|[U1 U2]];
+        rewrite L2, U2; lra.
+Qed.
+
+
+Theorem exact_clamp_identity_overlap x y x' y' :
+  on_both x y -> on_both x' y' ->
+  intersection_impl A1 A2 B1 B2 = LOverlap (fpt x y) (fpt x' y') ->
+  intersection A1 A2 B1 B2 = LOverlap (fpt x y) (fpt x' y').
+Proof.
+  intros Hon Hon' Hi.
+  destruct (on_both_in_boxes Hon) as [HA HB]. destruct (on_both_in_boxes Hon') as [HA' HB'].
+  destruct (clamp_identity_generic (L := NQ_laws)
+              (okpt_fpt a1x a1y) (okpt_fpt a2x a2y) (okpt_fpt b1x b1y) (okpt_fpt b2x b2y)
+              (okpt_fpt x y) HA HB) as [bb [Hbb Hc]].
+  destruct (clamp_identity_generic (L := NQ_laws)
+              (okpt_fpt a1x a1y) (okpt_fpt a2x a2y) (okpt_fpt b1x b1y) (okpt_fpt b2x b2y)
+              (okpt_fpt x' y') HA' HB') as [bb' [Hbb' Hc']].
+  rewrite Hbb in Hbb'. injection Hbb' as <-.
+  unfold intersection. rewrite Hbb, Hi, Hc, Hc'. reflexivity.
+Qed.
+
+(** the same for the clamped [intersection] *)
+Theorem intersection_collinear :
+  det == 0 -> numT == 0 -> ~ (a2x == a1x /\ a2y == a1y) ->
+  exists lo hi : Q,
+    (forall x y, on_both x y <-> exists s, lo <= s <= hi /\ seg_a_at s x y) /\
+    ((hi < lo /\ intersection A1 A2 B1 B2 = LNone) \/
+     (lo == hi /\ exists x y,
+        intersection A1 A2 B1 B2 = LPoint (fpt x y) /\ seg_a_at lo x y) \/
+     (lo <= hi /\ (~ (b2x == b1x /\ b2y == b1y) -> lo < hi) /\ exists x y x' y',
+        intersection A1 A2 B1 B2 = LOverlap (fpt x y) (fpt x' y') /\
+        seg_a_at lo x y /\ seg_a_at hi x' y')).
+Proof.
+  intros Hdet HT Hne.
+  destruct (impl_collinear Hdet HT Hne) as (lo & hi & Hch & Hcases).
+  exists lo, hi. split; [exact Hch|].
+  destruct Hcases as [[H1 H2]|[(H1 & x & y & H2 & H3)|(H1 & Hs & x & y & x' & y' & H2 & H3 & H4)]].
+  - left. split; [exact H1 | exact (intersection_none_of_impl H2)].
+  - right; left. split; [exact H1|]. exists x, y. split; [|exact H3].
+    apply exact_clamp_identity; [|exact H2].
+    apply Hch. exists lo. split; [lra | exact H3].
+  - right; right. split; [exact H1|]. split; [exact Hs|].
+    exists x, y, x', y'. split; [|split; assumption].
+    apply exact_clamp_identity_overlap; [| |exact H2].
+    + apply Hch. exists lo. split; [lra | exact H3].
+    + apply Hch. exists hi. split; [lra | exact H4].
+Qed.
+
+(** *** a degenerate first segment: the collinear branch divides 0 by 0 *)
+Theorem impl_degenerate_a_none :
+  a2x == a1x -> a2y == a1y -> intersection_impl A1 A2 B1 B2 = LNone.
+Proof.
+  intros Hx Hy.
+  assert (Hdet : det == 0) by (unfold det; rewrite Hx, Hy; ring).
+  assert (HT : numT == 0) by (unfold numT; rewrite Hx, Hy; ring).
+  assert (Hl : rlen == 0) by (rewrite rlen_eq; unfold len2; rewrite Hx, Hy; ring).
+  assert (Hn : rdot rvax rvay rex rey == 0).
+  { unfold rvax, rvay, rex, rey. rewrite rdot_eq, !rsub_eq, Hx, Hy. ring. }
+  rewrite impl_eval.
+  rewrite (gt0_sq_false (k := rk)) by (rewrite rk_det; exact Hdet).
+  rewrite (gt0_sq_false (k := rnt)) by (rewrite rnt_eq; exact HT).
+  cbv zeta. rewrite (qdiv_00 Hn Hl). reflexivity.
+Qed.
+
+(** *** summary over all finite inputs *)
+
+(** every point of the result is finite *)
+Definition finite_result (r : line_intersection NQ) : Prop :=
+  match r with
+  | LNone => True
+  | LPoint p => exists x y, p = fpt x y
+  | LOverlap p q => (exists x y, p = fpt x y) /\ (exists x y, q = fpt x y)
+  end.
+
+Lemma finite_fpt x y : exists x0 y0, fpt x y = fpt x0 y0.
+Proof. exists x, y. reflexivity. Qed.
+
+Theorem impl_finite_all : finite_result (intersection_impl A1 A2 B1 B2).
+Proof.
+  destruct (Qeq_dec det 0) as [Hdet|Hdet].
+  - destruct (Qeq_dec numT 0) as [HT|HT].
+    + destruct (Qeq_dec a2x a1x) as [Hx|Hx]; [destruct (Qeq_dec a2y a1y) as [Hy|Hy]|].
+      * rewrite (impl_degenerate_a_none Hx Hy). exact I.
+      * assert (Hne : ~ (a2x == a1x /\ a2y == a1y)) by tauto.
+        destruct (impl_collinear Hdet HT Hne)
+          as (lo & hi & _ & [[_ H]|[(_ & x & y & H & _)|(_ & _ & x & y & x' & y' & H & _)]]);
+          rewrite H; cbn [finite_result];
+          first [exact I | apply finite_fpt | split; apply finite_fpt].
+      * assert (Hne : ~ (a2x == a1x /\ a2y == a1y)) by tauto.
+        destruct (impl_collinear Hdet HT Hne)
+          as (lo & hi & _ & [[_ H]|[(_ & x & y & H & _)|(_ & _ & x & y & x' & y' & H & _)]]);
+          rewrite H; cbn [finite_result];
+          first [exact I | apply finite_fpt | split; apply finite_fpt].
+    + rewrite (proj1 (impl_parallel_distinct Hdet HT)). exact I.
+  - destruct (impl_finite Hdet) as [H|(x & y & H)]; rewrite H; cbn [finite_result];
+      first [exact I | apply finite_fpt].
+Qed.
+
+(** hence the hypothesis of [intersection_point_in_both_boxes] holds at [NQ] *)
+Theorem intersection_point_in_both_boxes_NQ q :
+  intersection A1 A2 B1 B2 = LPoint q ->
+  okpt NQ_laws q /\ in_seg_box A1 A2 q /\ in_seg_box B1 B2 q.
+Proof.
+  apply (intersection_point_in_both_boxes (L := NQ_laws));
+    try apply okpt_fpt.
+  intros p Hp. assert (Hf := impl_finite_all). rewrite Hp in Hf.
+  destruct Hf as (x & y & ->). exact (okpt_fpt x y).
+Qed.
+
+Theorem intersection_overlap_in_both_boxes_NQ q q' :
+  intersection A1 A2 B1 B2 = LOverlap q q' ->
+  (okpt NQ_laws q /\ in_seg_box A1 A2 q /\ in_seg_box B1 B2 q) /\
+  (okpt NQ_laws q' /\ in_seg_box A1 A2 q' /\ in_seg_box B1 B2 q').
+Proof.
+  apply (intersection_overlap_in_both_boxes (L := NQ_laws));
+    try apply okpt_fpt.
+  intros p p' Hp. assert (Hf := impl_finite_all). rewrite Hp in Hf.
+  destruct Hf as [(x & y & ->) (x' & y' & ->)]. split; apply okpt_fpt.
+Qed.
+
+(** soundness and completeness of [intersection] at [NQ] for a non-degenerate first
+    segment: [LNone] only for disjoint segments, otherwise common points *)
+Definition exact_result (r : line_intersection NQ) : Prop :=
+  match r with
+  | LNone => disjoint_segments
+  | LPoint p => exists x y, p = fpt x y /\ on_both x y
+  | LOverlap p q =>
+      exists x y x' y', p = fpt x y /\ q = fpt x' y' /\ on_both x y /\ on_both x' y'
+  end.
+
+Theorem intersection_exact_all :
+  ~ (a2x == a1x /\ a2y == a1y) -> exact_result (intersection A1 A2 B1 B2).
+Proof.
+  intros Hne.
+  destruct (Qeq_dec det 0) as [Hdet|Hdet].
+  - destruct (Qeq_dec numT 0) as [HT|HT].
+    + destruct (intersection_collinear Hdet HT Hne)
+        as (lo & hi & Hch &
+            [[H1 H]|[(H1 & x & y & H & H3)|(H1 & _ & x & y & x' & y' & H & H3 & H4)]]);
+        rewrite H; cbn [exact_result].
+      * apply disjoint_iff_no_common_point. intros (x & y & Hon).
+        apply Hch in Hon. destruct Hon as (s & Hs & _). lra.
+      * exists x, y. split; [reflexivity|]. apply Hch. exists lo. split; [lra | exact H3].
+      * exists x, y, x', y'. split; [reflexivity|]. split; [reflexivity|]. split.
+        -- apply Hch. exists lo. split; [lra | exact H3].
+        -- apply Hch. exists hi. split; [lra | exact H4].
+    + destruct (impl_parallel_distinct Hdet HT) as [H Hno].
+      rewrite (intersection_none_of_impl H). cbn [exact_result].
+      intros s t _ _. apply Hno.
+  - destruct (intersection_exact Hdet) as [[H Hd]|(x & y & H & Hon)];
+      rewrite H; cbn [exact_result].
+    + exact Hd.
+    + exists x, y. split; [reflexivity | exact Hon].
+Qed.
+
 End Exact.
+
+(** the concrete witness of the finding *)
+Example degenerate_a_witness :
+  intersection (fpt 0 0) (fpt 0 0) (fpt (-1) 0) (fpt 1 0) = LNone /\
+  on_both 0 0 0 0 (-1) 0 1 0 0 0.
+Proof.
+  split.
+  - apply intersection_none_of_impl. apply impl_degenerate_a_none; reflexivity.
+  - exists 0, (1 # 2). repeat split; try lra; reflexivity.
+Qed.
+
+(** ** Final statements and assumptions *)
+Check clamp_in_box.
+Check bbox_is_common_box.
+Check bbox_point_in_both_boxes.
+Check intersection_point_in_both_boxes.
+Check intersection_overlap_in_both_boxes.
+Check clamp_identity_generic.
+Check gt0_sq_iff.
+Check impl_crossing_exact.
+Check on_both_unique.
+Check impl_none_disjoint_crossing_case.
+Check impl_finite.
+Check impl_crossing_complete.
+Check exact_clamp_identity.
+Check intersection_exact.
+Check intersection_exact_point.
+Check intersection_exact_none.
+Check intersection_eq_impl_crossing.
+Check impl_parallel_distinct.
+Check impl_collinear.
+Check exact_clamp_identity_overlap.
+Check intersection_collinear.
+Check impl_degenerate_a_none.
+Check impl_finite_all.
+Check intersection_point_in_both_boxes_NQ.
+Check intersection_overlap_in_both_boxes_NQ.
+Check intersection_exact_all.
+Check degenerate_a_witness.
+
+Print Assumptions clamp_in_box.
+Print Assumptions bbox_is_common_box.
+Print Assumptions bbox_point_in_both_boxes.
+Print Assumptions intersection_point_in_both_boxes.
+Print Assumptions intersection_overlap_in_both_boxes.
+Print Assumptions clamp_identity_generic.
+Print Assumptions gt0_sq_iff.
+Print Assumptions impl_crossing_exact.
+Print Assumptions on_both_unique.
+Print Assumptions impl_none_disjoint_crossing_case.
+Print Assumptions impl_finite.
+Print Assumptions impl_crossing_complete.
+Print Assumptions exact_clamp_identity.
+Print Assumptions intersection_exact.
+Print Assumptions intersection_exact_point.
+Print Assumptions intersection_exact_none.
+Print Assumptions intersection_eq_impl_crossing.
+Print Assumptions impl_parallel_distinct.
+Print Assumptions impl_collinear.
+Print Assumptions exact_clamp_identity_overlap.
+Print Assumptions intersection_collinear.
+Print Assumptions impl_degenerate_a_none.
+Print Assumptions impl_finite_all.
+Print Assumptions intersection_point_in_both_boxes_NQ.
+Print Assumptions intersection_overlap_in_both_boxes_NQ.
+Print Assumptions intersection_exact_all.
+Print Assumptions degenerate_a_witness.
